@@ -21,6 +21,7 @@ import (
 
 	"github.com/ava-labs/hypersdk/internal/executor"
 	"github.com/ava-labs/hypersdk/internal/fees"
+	"github.com/ava-labs/hypersdk/internal/verifhook"
 	"github.com/ava-labs/hypersdk/keys"
 	"github.com/ava-labs/hypersdk/state"
 	"github.com/ava-labs/hypersdk/state/tstate"
@@ -137,6 +138,8 @@ func (c *Builder) BuildBlock(ctx context.Context, pChainCtx *block.Context, pare
 	// Batch fetch items from mempool to unblock incoming RPC/Gossip traffic
 	c.mempool.StartStreaming(ctx)
 	for time.Since(start) < c.config.TargetBuildDuration && !stop {
+		verifhook.Yield("builder.stream.loop")
+		verifhook.AwaitLock("builder.prepareStreamLock1", 0, &prepareStreamLock)
 		prepareStreamLock.Lock()
 		txs := c.mempool.Stream(ctx, streamBatch)
 		prepareStreamLock.Unlock()
@@ -188,6 +191,7 @@ func (c *Builder) BuildBlock(ctx context.Context, pChainCtx *block.Context, pare
 			// Once we get part way through a prefetching job, we start
 			// to prepare for the next stream.
 			if i == streamPrefetchThreshold {
+				verifhook.AwaitLock("builder.prepareStreamLock2", 0, &prepareStreamLock)
 				prepareStreamLock.Lock()
 				go func() {
 					c.mempool.PrepareStream(ctx, streamBatch)
@@ -294,6 +298,7 @@ func (c *Builder) BuildBlock(ctx context.Context, pChainCtx *block.Context, pare
 					return err
 				}
 
+				verifhook.AwaitLock("builder.blockLock", 0, &blockLock)
 				blockLock.Lock()
 				defer blockLock.Unlock()
 
@@ -340,6 +345,7 @@ func (c *Builder) BuildBlock(ctx context.Context, pChainCtx *block.Context, pare
 				// Wait for stream preparation to finish to make
 				// sure all transactions are returned to the mempool.
 				go func() {
+					verifhook.AwaitLock("builder.prepareStreamLock3", 0, &prepareStreamLock)
 					prepareStreamLock.Lock() // we never need to unlock this as it will not be used after this
 					restored := c.mempool.FinishStreaming(ctx, append(blockTransactions, restorable...))
 					c.log.Debug("transactions restored to mempool", zap.Int("count", restored))
@@ -354,6 +360,7 @@ func (c *Builder) BuildBlock(ctx context.Context, pChainCtx *block.Context, pare
 	// Wait for stream preparation to finish to make
 	// sure all transactions are returned to the mempool.
 	go func() {
+		verifhook.AwaitLock("builder.prepareStreamLock4", 0, &prepareStreamLock)
 		prepareStreamLock.Lock()
 		restored := c.mempool.FinishStreaming(ctx, restorable)
 		c.log.Debug("transactions restored to mempool", zap.Int("count", restored))
